@@ -7,7 +7,7 @@ lc=$(echo $pid | tr A-Z a-z)
 n=$lc-revert-$c; mkdir -p /verif/mutants/$n
 git -C /repo diff $c $c~1 -- rdflib > /verif/mutants/$n/patch.diff
 subj=$(git -C /repo log --format=%s -1 $c | sed 's/"/'"'"'/g')
-echo "{\"property\":\"$pid\",\"origin\":\"reverse of fix: commit $c\",\"needs\":\"$subj\"}" > /verif/mutants/$n/meta.json
+/venv/bin/python -c 'import json,sys; json.dump({"property":sys.argv[1],"origin":"reverse of fix: commit "+sys.argv[2],"needs":sys.argv[3]},open(sys.argv[4],"w"))' "$pid" "$c" "$subj" /verif/mutants/$n/meta.json
 /verif/tools/corpus_from_rev.sh $c~1 $pid fix-$c $runs
 /venv/bin/python - "$c" "$pid" "$subj" <<'PY'
 import json, sys
